@@ -587,6 +587,7 @@ struct SampleOracle
     std::string subj;
     ob::InformedSampler *smp;
     Vec pos, rot;
+    bool strictBound = false;  // `--strict-bound 1`: no representational floor on "heuristic cost < c" (see check())
     J ctx() const
     {
         J j;
@@ -612,7 +613,7 @@ struct SampleOracle
             double floorTol = 16 * EPS * std::sqrt((double)w.n) * m;
             if (!(hl < c))
             {
-                if (hl < c + floorTol)
+                if (hl < c + floorTol && !strictBound)
                 {
                     sink.count("c15_cost_at_bound_within_ulp_stat");
                     sink.maxstat("c15_cost_at_bound_excess_over_floor", (hl - c) / floorTol);
@@ -700,7 +701,7 @@ static void runSamplerCase(Sink &sink, const Args &a, long cs)
     const int K = a.thorough() ? 1500 : 500;
     const int nInf = rng.coin(0.15) ? 10 : 0;
     const int plateau = rng.range(1, 20);
-    SampleOracle orc{sink, P, direct, subj, smp.get(), {}, {}};
+    SampleOracle orc{sink, P, direct, subj, smp.get(), {}, {}, a.get("strict-bound") == "1"};
     ob::ScopedState<> st(P.w.si);
     long okc = 0, fails = 0, lowOk = 0;
     double cPrev = std::numeric_limits<double>::infinity();
@@ -735,7 +736,7 @@ static void runSamplerCase(Sink &sink, const Args &a, long cs)
                     {
                         sink.count("c15_informed_measure_checks");
                         if (ref < spaceMeasure) sink.count("c15_informed_measure_uncapped");
-                        if (!(std::fabs(m - ref) <= rt * ref + 1e-300))
+                        if (!smp->hasInformedMeasure() || !(std::fabs(m - ref) <= rt * ref + 1e-300))
                         {
                             sink.viol("C15:informed-measure:" + subj, orc.ctx().num("c", c).num("getInformedMeasure", m).num("expected", ref).num("space_measure", spaceMeasure));
                             alive = false;
@@ -964,7 +965,7 @@ static void runUniformityCase(Sink &sink, const Args &a, long cs)
     const double th2 = [&] { double lo = 0, hi = PI; for (int i = 0; i < 80; ++i) { double m = (lo + hi) / 2; (so3AngleCdf(m) < 2.0 / 3 ? lo : hi) = m; } return lo; }();
 
     // ---- library samples
-    SampleOracle orc{sink, P, direct, subj, smp.get(), {}, {}};
+    SampleOracle orc{sink, P, direct, subj, smp.get(), {}, {}, a.get("strict-bound") == "1"};
     ob::ScopedState<> st(w.si);
     long got = 0, calls = 0;
     bool alive = true;
